@@ -2,6 +2,7 @@
 
 fmt keys (all optional; absent = canonical):
   crlf: bool            line ending \r\n instead of \n
+  cr: bool              line ending \r (classic Mac) instead of \n
   final_nl: bool        text ends with a line ending (default True)
   gap: str              blanks between tokens (default " ")
   trail: str            blanks appended to statement lines that carry no comment
@@ -140,7 +141,7 @@ def render(d: dict, fmt: dict | None = None) -> tuple[str, dict[str, int]]:
             emit(seal, "%d:seal" % si)  # raw override (fault injection)
     for ln in fmt.get("tail", []):
         lines.append(ln)
-    eol = "\r\n" if fmt.get("crlf") else "\n"
+    eol = "\r\n" if fmt.get("crlf") else "\r" if fmt.get("cr") else "\n"
     text = eol.join(lines)
     if fmt.get("final_nl", True):
         text += eol
